@@ -51,6 +51,11 @@ try:
     else:
         rc, out = sh("git apply %s/patch.diff" % dst, wt)
         assert rc == 0, out
+        prev = meta.get("verification", {})
+        for k in ("demo_passes_without_patch", "demo_fails_with_patch", "demo_tail_with_patch", "suite_with_patch", "suite_passes_with_patch"):
+            if k in prev:
+                res[k] = prev[k]
+        res["earlier_checks"] = prev.get("checks", {})
     checks = {}
     for p in props:
         t0 = time.time()
